@@ -146,6 +146,15 @@ def twins(ctx, prog, scope=None, floor=None):
                         if ce is not None and ce[0] == "call" and eu[0] == "call" and ce[1] == eu[1]:
                             same = True
                             carms.append("then(.., || %s(..))" % ce[1].split("::")[-1])
+        if not same and cu is not None:
+            # Option-returning safe form spelled with if/else: the `Some(..)` arm carries the internal call
+            for a in arms:
+                a = strip(a)
+                if a[0] == "agg" and a[1].endswith("Option::Some") and len(a[2]) == 1:
+                    inner = tcanon(expand(prog, a[2][0]))
+                    if inner == cu:
+                        same = True
+                        carms.append("Some(%s)" % inner[:100])
         ctx.ob(R, "safe %s computes the same internal call as its unchecked twin (on its in-contract arm)" % safe.short, same,
                "safe arms: %s | unchecked: %s" % ([c[:140] for c in carms], (cu or "?")[:160]), safe.loc())
     ctx.floor(R, n, 24 if floor is None else floor, "*_unchecked functions with bodies%s" % ("" if scope is None else " in scope"))
